@@ -94,22 +94,30 @@ fn ensure_dir() {
             }
         }
     }
+    // future-dated files (negative age): the measured value is below every N, so only -N may select them
+    for (i, ahead) in [43_200i64, 129_600, 90, 1].iter().enumerate() {
+        let mut n = Node::new(format!("s/u{i}"), Kind::File);
+        n.mtime = Some((NOW_S as i64 + ahead, 0));
+        n.atime = Some((NOW_S as i64 + ahead, 500));
+        t.nodes.push(n);
+    }
     t.nodes.push(Node::new("s/.ready", Kind::File));
     t.build();
 }
 
-fn measured(test: &str, unit: &str, m: &std::fs::Metadata) -> Option<u64> {
+fn measured(test: &str, unit: &str, m: &std::fs::Metadata) -> Option<i128> {
     let now = UNIX_EPOCH + Duration::from_secs(NOW_S);
-    let age = |t: SystemTime, period: u64| now.duration_since(t).ok().map(|d| d.as_secs() / period);
+    // a timestamp after 'now' gives a negative age: some value below every operand
+    let age = |t: SystemTime, period: u64| Some(now.duration_since(t).map(|d| (d.as_secs() / period) as i128).unwrap_or(-1));
     match test {
         "-size" => {
             let u = unit_bytes(unit);
-            Some(m.len().div_ceil(u))
+            Some(m.len().div_ceil(u) as i128)
         }
-        "-links" => Some(m.nlink()),
-        "-inum" => Some(m.ino()),
-        "-uid" => Some(m.uid() as u64),
-        "-gid" => Some(m.gid() as u64),
+        "-links" => Some(m.nlink() as i128),
+        "-inum" => Some(m.ino() as i128),
+        "-uid" => Some(m.uid() as i128),
+        "-gid" => Some(m.gid() as i128),
         "-mtime" => age(m.modified().unwrap(), 86400),
         "-atime" => age(m.accessed().unwrap(), 86400),
         "-mmin" => age(m.modified().unwrap(), 60),
@@ -122,7 +130,7 @@ pub fn gen_case(g: &mut Gen) -> Case {
     let test = g.pick(&["-size", "-size", "-size", "-links", "-inum", "-uid", "-gid", "-mtime", "-atime", "-mmin", "-amin"]).to_string();
     let unit = if test == "-size" { g.pick(&["", "c", "w", "b", "k", "M", "G"]).to_string() } else { String::new() };
     // N: around a measured value of a file chosen by index (resolved at check time through `pick`), or special
-    let n = match g.weighted(&[10, 2, 1, 1, 1]) {
+    let n = match g.weighted(&[10, 2, 1, 1, 1, 4]) {
         0 => {
             // encode "file index + delta" into n via a marker: resolved in check (kept simple: draw from plausible values)
             let base: u64 = match test.as_str() {
@@ -141,7 +149,15 @@ pub fn gen_case(g: &mut Gen) -> Case {
         1 => 0,
         2 => (1u64 << 63) - 1 + g.below(3),
         3 => u64::MAX - g.below(2),
-        _ => g.u64_any(),
+        4 => g.u64_any(),
+        _ => {
+            // 2^e + a small plausible value: operands whose scaling by the unit (or any shift) wraps
+            // around 2^64 land back on the measured values
+            let e = g.below(64);
+            let small = g.pick(&[0u64, 0, 1, 2, 3, 4, 5, 6, 1023, 1024, 1025]);
+            let v = (1u128 << e) + small as u128 - if g.chance(1, 4) { 1 } else { 0 };
+            v.min(u64::MAX as u128) as u64
+        }
     };
     Case { test, n, unit }
 }
@@ -161,20 +177,20 @@ fn run_sel(ctx: &mut Ctx, test: &str, op: &str) -> Result<Vec<String>, Outcome> 
 pub fn check(ctx: &mut Ctx, c: &Case) -> Outcome {
     ensure_dir();
     let mut n = c.n;
-    let mut files: Vec<(String, u64)> = vec![];
+    let mut files: Vec<(String, i128)> = vec![];
     let mut names: Vec<String> = std::fs::read_dir("s").unwrap().flatten().map(|e| e.file_name().to_string_lossy().into_owned()).collect();
     names.sort();
     for nm in &names {
         let p = format!("s/{nm}");
         let m = std::fs::symlink_metadata(&p).unwrap();
-        // files whose tested timestamp lies after the injected 'now' (negative age) are outside the statement
+        // a timestamp after the injected now gives a negative age, modelled as a value below every operand
         if let Some(v) = measured(&c.test, &c.unit, &m) {
             files.push((p, v));
         }
     }
     if c.test == "-inum" && c.n >= u64::MAX - 6 && c.n < u64::MAX - 3 {
         // around a real inode number
-        let pick = files[(c.n % files.len() as u64) as usize].1;
+        let pick = files[(c.n % files.len() as u64) as usize].1 as u64;
         n = pick + (c.n % 3) - 1;
     }
     let op = |prefix: &str, n: u64| format!("{prefix}{n}{}", c.unit);
@@ -194,11 +210,11 @@ pub fn check(ctx: &mut Ctx, c: &Case) -> Outcome {
     let monotone_domain: Vec<&String> = files.iter().map(|(p, _)| p).collect();
     for (p, v) in &files {
         let got = (eq.contains(p), gt.contains(p), lt.contains(p));
-        let want = (*v == n, *v > n, *v < n);
+        let want = (*v == n as i128, *v > n as i128, *v < n as i128);
         if got != want {
             let count = got.0 as u8 + got.1 as u8 + got.2 as u8;
             let kind = if count != 1 { "not-exactly-one-form-true" } else { "wrong-form-true" };
-            let rel = if *v == n { "value==N" } else if *v > n { "value>N" } else { "value<N" };
+            let rel = if *v < 0 { "negative-age" } else if *v == n as i128 { "value==N" } else if *v > n as i128 { "value>N" } else { "value<N" };
             return fail(
                 format!("C14:{kind}:{}{unit_sig}:{rel}", c.test),
                 format!("file {p} (measured value {v}, size {} bytes) with N={n}{}\n(N,+N,-N) selected = {got:?}, expected {want:?}", std::fs::symlink_metadata(p).map(|m| m.len()).unwrap_or(0), c.unit),
@@ -222,7 +238,7 @@ pub fn check(ctx: &mut Ctx, c: &Case) -> Outcome {
             return fail(format!("C14:-N-not-monotone:{}{unit_sig}", c.test), format!("-{} selects {:?} which -{} does not", n, lt.iter().filter(|p| !lt1.contains(p)).collect::<Vec<_>>(), n + 1));
         }
     }
-    let near = files.iter().any(|(_, v)| v.abs_diff(n) <= 1);
+    let near = files.iter().any(|(_, v)| v.abs_diff(n as i128) <= 1);
     Pass::new(near)
         .evals(5 * files.len() as u64)
         .class(match c.test.as_str() {
@@ -232,6 +248,7 @@ pub fn check(ctx: &mut Ctx, c: &Case) -> Outcome {
         })
         .class_if(n >= (1 << 62), "huge-N")
         .class_if(n == 0, "N=0")
+        .class_if(n.is_power_of_two() || (n > 8 && (n - 1).is_power_of_two()) || (n & (n.wrapping_add(1))) == 0, "power-of-two-boundary")
         .sample(json!({"test": c.test, "operands": [op("", n), op("+", n), op("-", n)], "selected": [eq.len(), gt.len(), lt.len()]}))
         .ok()
 }
